@@ -45,9 +45,13 @@ def apply(root, m):
   open(p, "w").write(s)
 
 
+OUT = tempfile.mkdtemp(prefix="vt_out_")
+
+
 def run_check(root, pid, tier):
   env = dict(os.environ)
   env["VT_REPO"] = root
+  env["VT_OUT"] = OUT
   t = time.time()
   r = subprocess.run([os.path.join(HERE, "check"), pid, "--tier", tier], env=env,
                      capture_output=True, text=True, cwd=HERE)
@@ -69,10 +73,6 @@ def main():
   if "--checks" in args:
     only = args[args.index("--checks") + 1].split(",")
   muts = [m for m in catalog() if pat == "all" or fnmatch.fnmatch(m["name"], pat)]
-  # evidence files are rewritten by checks: keep the originals
-  evdir = os.path.join(HERE, "evidence")
-  backup = tempfile.mkdtemp(prefix="vt_ev_")
-  shutil.copytree(evdir, backup + "/e")
   rows = []
   try:
     for m in muts:
@@ -91,10 +91,7 @@ def main():
       finally:
         shutil.rmtree(root, ignore_errors=True)
   finally:
-    shutil.rmtree(evdir, ignore_errors=True)
-    shutil.copytree(backup + "/e", evdir)
-    shutil.rmtree(backup, ignore_errors=True)
-    shutil.rmtree(os.path.join(HERE, "replays"), ignore_errors=True)
+    shutil.rmtree(OUT, ignore_errors=True)
   bad = [r for r in rows if r[2] != r[3]]
   print("mutants run: %d, unexpected: %d" % (len(rows), len(bad)))
 
